@@ -480,6 +480,9 @@ func (x *Exec) merge(states []*State) []*State {
 	if len(states) <= 1 {
 		return states
 	}
+	if x.c.Options["paths-in-loops"] && len(x.loopPath) > 0 && len(states) <= 8 {
+		return states // keep the paths of a loop body separate: smaller, more ground queries
+	}
 	// common prefix of pcs
 	p := len(states[0].pc)
 	for _, s := range states[1:] {
@@ -795,6 +798,14 @@ func (x *Exec) execAssign(s *State, st *ast.AssignStmt) {
 		}
 		vals := x.evalRHS(s, st.Rhs, len(st.Lhs))
 		for i, l := range st.Lhs {
+			// untyped nil takes the type of the assigned location
+			if len(st.Rhs) == len(st.Lhs) {
+				if id, ok := ast.Unparen(st.Rhs[i]).(*ast.Ident); ok {
+					if _, isNil := x.info.Uses[id].(*types.Nil); isNil {
+						vals[i] = x.u.zero(x.u.sortOf(x.info.TypeOf(l)))
+					}
+				}
+			}
 			x.assignTo(s, l, vals[i])
 		}
 	default:
@@ -1160,6 +1171,15 @@ func (x *Exec) doReturn(s *State, vals []*Term, entry *State, pos token.Pos) {
 	x.checkFrame(s, entry, x.c.Assigns, x.c.HasAssigns, "frame", tag, x.envFor(entry, entry, token.NoPos))
 }
 
+func (x *Exec) unfoldable(t *Term) bool {
+	f, ok := x.u.Specs.Funs[t.Op]
+	if !ok || f.Body == nil || !modeOK(f.Mode, x.mode) || thePrelude == nil {
+		return false
+	}
+	_, ok = thePrelude.funBody[t.Op]
+	return ok && len(t.Args) == len(f.Params)
+}
+
 // obligeSplit splits conjunctions into separate obligations.
 func (x *Exec) obligeSplit(s *State, kind, label string, goal *Term, text, pos string) {
 	if goal.Op == "and" {
@@ -1174,12 +1194,23 @@ func (x *Exec) obligeSplit(s *State, kind, label string, goal *Term, text, pos s
 		}
 		return
 	}
-	if goal.Op == "=>" && (goal.Args[1].Op == "forall" || goal.Args[1].Op == "=>") {
+	if goal.Op == "=>" && (goal.Args[1].Op == "forall" || goal.Args[1].Op == "=>" || x.unfoldable(goal.Args[1])) {
 		// move the hypothesis into the path condition of a private copy and continue with the conclusion
 		c := s.clone()
 		c.assume(goal.Args[0])
 		x.obligeSplit(c, kind, label, goal.Args[1], text, pos)
 		return
+	}
+	// a goal that is an application of a defined specification function is unfolded so that it can be split
+	if f, ok := x.u.Specs.Funs[goal.Op]; ok && f.Body != nil && modeOK(f.Mode, x.mode) && thePrelude != nil {
+		if body, ok := thePrelude.funBody[goal.Op]; ok && len(goal.Args) == len(f.Params) {
+			m := map[string]*Term{}
+			for i, pn := range f.Params {
+				m[pn] = goal.Args[i]
+			}
+			x.obligeSplit(s, kind, label, subst(body, m), text, pos)
+			return
+		}
 	}
 	if goal.Op == "forall" && len(goal.Pats) == 0 {
 		m := map[string]*Term{}
